@@ -34,8 +34,12 @@ Theorems
 4. `comm_stable`, `player_next_own_cert` (FULL): the staged value's assembler survives every trim while the player stays in
    the period, hence `RNextOwnCert` holds without excuse for every next-type vote — the invariant that the code before repo
    commit b6f661fbce violated (finding of this file); `threshold_fix_separates` shows the pre-fix handler breaking it.
+5. `vote_values`, `vote_rules_abs`, `cached_nextQ`, `commit_certQ`, `histLink_projFull` (FULL under the named links `HistLink`,
+   `PrevLink`): `RSoftStart`, `RNextVal`, `RCertStaged`, `RSee`, `RCommit` in ABSTRACT form via the quorum lift
+   `Lemmas.PlayerAttestAbs.quorum_abs`; `projFull`: executable complete projection, accepted by `wfCheck` on the example runs.
 -/
 import AlgoVerif.Lemmas.PlayerAttestKeepStep
+import AlgoVerif.Lemmas.PlayerAttestAbs
 import AlgoVerif.Props.C02
 import AlgoVerif.Props.C03
 import AlgoVerif.Spec.AgreementAbs
@@ -389,7 +393,7 @@ theorem guardedPlayerM_no_equivocation (P : Params) (good : Nat → Nat → Nat 
     `runOK_prefix` / `runOKA_prefix`: all of this applies to every prefix of a run, i.e. "delivered so far".
 NOT done: the enter / see / commit *events* of the projection (only the facts they need, (c)); the arithmetic lift from
 a verifying bundle (`Bundle.verify`: distinct senders, weight ≥ step threshold) to the abstract `Q` (one threshold `T`,
-weights summed over a fixed node list); `RSoftStart`, `RNextVal`, `REnterGrow` (`RNextOwnCert`: last section, full) (the last is `HStep.lex`
+weights summed over a fixed node list) — both done in section 5 (`quorum_Q`, `vote_rules_abs`); `REnterGrow` as an event (the last is `HStep.lex`
 + `Entered`, not projected). -/
 
 section Abstract
@@ -911,5 +915,429 @@ theorem threshold_fix_separates :
   constructor <;> decide
 
 end NextOwnCert
+
+/-! ### 5. values of soft / next votes (`RSoftStart`, `RNextVal`) and the quorum rules in ABSTRACT form
+
+`vote_values` (FULL, concrete form): what every soft / next / down vote read from the tree (`ValFact`): a soft vote is never
+⊥ and is the cached starting value when cache(p−1) = (Bottom = false, value); a next vote is the committable value, else
+⊥ / the cached value as cache(p−1) says; a down vote is cast only when nothing non-⊥ is committable and the cache has Bottom or
+no value.  (cert / late / redo values: `AttKind`, `cert_vote_staged`, `redo_vote_cached`.)
+
+`HistLink P good Pabs r h` — how an abstract history `h` must be linked to the concrete run for the quorum lift
+(`Lemmas.PlayerAttestAbs.quorum_abs`): every vote of round `r` delivered to the node as verified (`good` = `goodIn base es`)
+is in `h` (Go step s ↦ `absStep s`, value 0 ↦ ⊥), its sender is a node of `Pabs` with the credential weight as abstract
+weight, and the single abstract threshold is a lower bound of every step threshold (`Pabs.T ≤ stepT P s`).
+`PrevLink L root r p` — the abstract local state `L` (the fold of the node's `see` events) shows, for the previous period,
+what the tree's period tracker has cached (for p = 0: the Go code reads the tracker of period 2^64 − 1, which must be empty).
+
+Under these two links (`vote_rules_abs`): `RSoftStart`, `RCertStaged`, `RNextVal` hold for the abstract image of every vote;
+`cached_nextQ` (`RSee`; with `Pabs.T > 0`): whatever a period tracker has cached has a next quorum in `h`;
+`commit_certQ` (`RCommit`): every `ensure` has a cert quorum in `h`.
+With `player_votes_justified_partial` (`RUnique`, `RBeforeNext`, `RCertAfterNext`), `player_next_own_cert` (`RNextOwnCert`) and
+`votes_in_period` (`RPeriod`, concrete) every rule of `okVote` is covered.
+
+`projFull` is the executable projection of a run to a complete abstract history of one round (delivered votes, `see` for
+every change of a cache, `enter` with its cause, own votes, `commit`); the abstract acceptor `wfCheck` accepts the projections
+of the three example runs (`by decide`).  `histLink_projFull` (FULL): the constructed projection of a run without panic is
+`HistLink`ed (every delivered verified vote of another sender is in it), given only that node set / weights / threshold of
+`Pabs` fit the delivered votes.  NOT proved in general: that `projFull` satisfies `PrevLink`, the period tracking
+(`localOf.period` = the player's Period, i.e. abstract `RPeriod` / `REnterGrow`) and `REnterCause` — i.e. that the fold of
+the projected `see` / `enter` events tracks the tree's caches — and the per-vote "delivered so far" split of `projFull`;
+these are the remaining named gaps to "PlayerM ⊑ WF" as a theorem. -/
+
+section AbsRules
+open AlgoVerif.Spec AlgoVerif.Lemmas.AgreementAbs
+open AlgoVerif.Model.VoteTracker (Bundle)
+
+/-- **vote_values.** -/
+theorem vote_values (P : Params) (good : Nat → Nat → Nat → Vote → Bool) (hg : GoodSpec good)
+    (σ₀ : State) (hI : NodeInv P good σ₀) (es : List Player.Event) (hr : RunOK P good σ₀ es) (hra : RunOKA P σ₀ es)
+    (hno : NoOverflow (snaps P σ₀ es)) : ∀ y ∈ snaps P σ₀ es, ∀ b ∈ y.2, ValFact y.1 b :=
+  snaps_val (ptok_spec P good) ptok_set hg es σ₀ hI hr hra hno
+
+theorem absVal_inj : ∀ a b, absVal a = absVal b → a = b := by
+  intro a b h
+  unfold absVal at h
+  split at h <;> split at h <;> simp_all
+
+theorem absVal_some {v : Nat} (h : v ≠ 0) : absVal v = some v := by unfold absVal; rw [if_neg h]
+
+structure HistLink (P : Params) (good : Nat → Nat → Nat → Vote → Bool) (Pabs : AgreementAbs.Params) (r : Nat)
+    (h : List AgreementAbs.Ev) : Prop where
+  thr : ∀ s, s ≠ 0 → Pabs.T ≤ stepT P s
+  link : ∀ p s a, good r p s a = true → a.sender ∈ Pabs.nodes ∧ Pabs.w a.sender = a.weight ∧
+    AgreementAbs.VotedFor h a.sender p (absStep s) (absVal a.value)
+
+/-- the quorum lift for the concrete quorum notion of this file -/
+theorem quorum_Q {P : Params} {good : Nat → Nat → Nat → Vote → Bool} {Pabs : AgreementAbs.Params} {r : Nat}
+    {h : List AgreementAbs.Ev} (hl : HistLink P good Pabs r h) {p s v : Nat} (hs : s ≠ 0) (hq : Quorum P good r p s v) :
+    AgreementAbs.Q Pabs h p (absStep s) (absVal v) := by
+  obtain ⟨b, hb, rfl⟩ := hq
+  exact quorum_abs Pabs h p (absStep s) absVal absVal_inj (cfgOf P s) (good r p s) b (hl.link p s) (hl.thr s hs) hb
+
+def absCache (ns : NextStatus) : AgreementAbs.Cache := ⟨ns.bottom, absVal ns.proposal⟩
+
+def PrevLink (L : AgreementAbs.Local) (root : Root) (r p : Nat) : Prop :=
+  ∀ ns, CacheAt root r (predPeriod p) ns → L.prev p = absCache ns
+
+theorem viewAt_some {root : Root} {r p : Nat} {vw : PView} (h : viewAt root r p = some vw) :
+    ∃ rr pr, RAt root r p rr pr ∧ pview pr = vw := by
+  unfold viewAt at h
+  cases hr : aget root.rounds r with
+  | none => rw [hr] at h; cases h
+  | some rr =>
+    rw [hr] at h
+    simp only [Option.bind_some] at h
+    cases hp : aget rr.periods p with
+    | none => rw [hp] at h; cases h
+    | some pr =>
+      rw [hp] at h
+      simp only [Option.map_some, Option.some.injEq] at h
+      exact ⟨rr, pr, ⟨hr, hp⟩, h⟩
+
+theorem fresh_jinvN (P : Params) (good : Nat → Nat → Nat → Vote → Bool) {σ₀ : State} (h : Fresh σ₀) :
+    SInvN P good (JView P good) σ₀ :=
+  ⟨fresh_jinv P good h, by unfold NS; rw [h.1]; intro kv hkv; exact (List.not_mem_nil hkv).elim⟩
+
+/-- a value staged for the player's own (round, period): not ⊥, and a soft or cert quorum in every linked history -/
+theorem staged_abs {P : Params} {good : Nat → Nat → Nat → Vote → Bool} {Pabs : AgreementAbs.Params}
+    {pre : List AgreementAbs.Ev} {σ : State} (hinv : SInvN P good (JView P good) σ)
+    (hl : HistLink P good Pabs σ.pl.round pre) {v : Nat} (h : StagedIs σ.root σ.pl.round σ.pl.period v) :
+    v ≠ 0 ∧ AgreementAbs.stagedQ Pabs pre σ.pl.period v := by
+  obtain ⟨vw, h1, h2, h3⟩ := h
+  obtain ⟨rr, pr, hat, hpv⟩ := viewAt_some h1
+  have hj := G_of_viewAt hinv.s.g h1
+  obtain ⟨s, hs, hq⟩ := hj.2.1 h2
+  rw [h3] at hq
+  have hset : (pview pr).set = true := by rw [hpv]; exact h2
+  have hv0 : v ≠ 0 := by
+    have := (hinv.n (σ.pl.round, rr) (aget_mem hat.1)).2 σ.pl.period pr hat.2 hset
+    rw [← h3, ← hpv]; exact this.1
+  refine ⟨hv0, ?_⟩
+  have hQ := quorum_Q hl (by omega) hq
+  rw [absVal_some hv0] at hQ
+  rcases hs with rfl | rfl
+  · exact Or.inl hQ
+  · exact Or.inr hQ
+
+/-- **vote_rules_abs.**  (apply it to the prefix of the run that ends with the vote for "delivered so far") -/
+theorem vote_rules_abs (P : Params) (base : Nat → Nat → Nat → Vote → Bool) (hg : GoodSpec base)
+    (σ₀ : State) (h0 : Fresh σ₀) (es : List Player.Event) (hr : RunOK P base σ₀ es) (hra : RunOKA P σ₀ es)
+    (hno : NoOverflow (snaps P σ₀ es)) (Pabs : AgreementAbs.Params) (n : Nat) (pre : List AgreementAbs.Ev) :
+    ∀ y ∈ snaps P σ₀ es, ∀ b ∈ y.2, HistLink P (goodIn base es) Pabs b.r pre →
+      PrevLink (AgreementAbs.localOf pre n) y.1.root b.r b.p →
+      (b.s = 1 → AgreementAbs.RSoftStart pre (absVote n b)) ∧
+      (b.s = 2 → AgreementAbs.RCertStaged Pabs pre (absVote n b)) ∧
+      (3 ≤ b.s → AgreementAbs.RNextVal Pabs pre (absVote n b)) := by
+  intro y hy b hb hl hpl
+  have hs := jview_spec P (goodIn base es)
+  have hset := jview_set P (goodIn base es)
+  have hg' := goodIn_spec hg es
+  have hr' := runOK_goodIn P base es es σ₀ (fun _ h => h) hr
+  have hI := fresh_jinvN P (goodIn base es) h0
+  have hinv := (snaps_lex hs hset hg' es σ₀ hI hr' hra y hy).2
+  have hatt := attests_in_period hs hset hg' es σ₀ hI.s hr' hra y hy
+  have hval := snaps_val hs hset hg' es σ₀ hI.s hr' hra hno y hy b hb
+  have hstep := hno y hy
+  rcases hatt with h0' | ⟨b', hb', hbr, hbp, pl, hk⟩
+  · rw [h0'] at hb; cases hb
+  rw [hb'] at hb
+  simp only [List.mem_singleton] at hb
+  subst hb
+  rw [hbr] at hl
+  have hstg : ∀ v, StagedIs y.1.root b.r b.p v → v ≠ 0 ∧ AgreementAbs.stagedQ Pabs pre b.p v := by
+    intro v hv
+    rw [hbr, hbp] at hv
+    rw [hbp]
+    exact staged_abs hinv hl hv
+  have hcomm : ∀ v, commVal y.1.root b.r b.p = some v → v ≠ 0 ∧ AgreementAbs.stagedQ Pabs pre b.p v := by
+    intro v hv
+    rw [hbr, hbp] at hv
+    obtain ⟨_, hD⟩ := commVal_droot hset hinv hv
+    have := droot_stagedIs hD
+    rw [← hbr, ← hbp] at this
+    exact hstg v this
+  -- the shape of `RNextVal` on the abstract image
+  have nv_some : ∀ {v : Nat}, b.v = v → v ≠ 0 →
+      (AgreementAbs.stagedQ Pabs pre b.p v ∨ (AgreementAbs.localOf pre n).prev b.p = ⟨false, some v⟩) →
+      AgreementAbs.RNextVal Pabs pre (absVote n b) := by
+    intro v e hv h
+    unfold AgreementAbs.RNextVal
+    show match absVal b.v with | some y => _ | none => _
+    rw [e, absVal_some hv]; exact h
+  have nv_none : b.v = 0 →
+      (((AgreementAbs.localOf pre n).prev b.p).bottom = true ∨ ((AgreementAbs.localOf pre n).prev b.p).prop = none) →
+      AgreementAbs.RNextVal Pabs pre (absVote n b) := by
+    intro e h
+    unfold AgreementAbs.RNextVal
+    show match absVal b.v with | some y => _ | none => _
+    rw [e]; exact h
+  have cache_case : ∀ ns, CacheAt y.1.root b.r (predPeriod b.p) ns → (b.v = if ns.bottom then 0 else ns.proposal) →
+      AgreementAbs.RNextVal Pabs pre (absVote n b) := by
+    intro ns hc hv
+    have hp := hpl ns hc
+    by_cases hb0 : b.v = 0
+    · refine nv_none hb0 ?_
+      rw [hp]
+      by_cases hbt : ns.bottom = true
+      · exact Or.inl hbt
+      · rw [if_neg hbt] at hv
+        refine Or.inr ?_
+        show absVal ns.proposal = none
+        rw [← hv, hb0]; rfl
+    · have hbt : ns.bottom = false := by
+        cases hh : ns.bottom with
+        | false => rfl
+        | true => rw [hh, if_pos rfl] at hv; exact absurd hv hb0
+      rw [hbt] at hv
+      simp only [Bool.false_eq_true, if_false] at hv
+      refine nv_some rfl hb0 (Or.inr ?_)
+      rw [hp]
+      show (⟨ns.bottom, absVal ns.proposal⟩ : AgreementAbs.Cache) = _
+      rw [hbt, ← hv, absVal_some hb0]
+  have down_case : b.v = 0 → (commVal y.1.root b.r b.p = some 0 ∨
+      ∃ ns, CacheAt y.1.root b.r (predPeriod b.p) ns ∧ (ns.bottom = true ∨ ns.proposal = 0)) →
+      AgreementAbs.RNextVal Pabs pre (absVote n b) := by
+    intro hb0 h
+    rcases h with h | ⟨ns, hc, h⟩
+    · exact absurd rfl (hcomm 0 h).1
+    · refine nv_none hb0 ?_
+      rw [hpl ns hc]
+      rcases h with h | h
+      · exact Or.inl h
+      · exact Or.inr (by show absVal ns.proposal = none; rw [h]; rfl)
+  refine ⟨fun h1 => ?_, fun h2 => ?_, fun h3 => ?_⟩
+  · -- soft
+    obtain ⟨ns, hc, hne, himp⟩ := hval.1 h1
+    refine ⟨(by show absVal b.v ≠ none; rw [absVal_some hne]; intro h; cases h), ?_⟩
+    intro hbot0 hprop0
+    have hbot : ((AgreementAbs.localOf pre n).prev b.p).bottom = false := hbot0
+    have hprop : ((AgreementAbs.localOf pre n).prev b.p).prop ≠ none := hprop0
+    show absVal b.v = ((AgreementAbs.localOf pre n).prev b.p).prop
+    by_cases hp0 : b.p = 0
+    · exfalso
+      apply hprop
+      unfold AgreementAbs.Local.prev
+      rw [if_pos hp0]; rfl
+    · rw [hpl ns hc] at hbot hprop ⊢
+      have hpn : ns.proposal ≠ 0 := by
+        intro e; apply hprop; show absVal ns.proposal = none; rw [e]; rfl
+      show absVal b.v = absVal ns.proposal
+      rw [himp (by omega) hbot hpn]
+  · -- cert
+    rcases hk with ⟨k, _⟩ | ⟨_, _, k⟩ | ⟨k, _⟩ | ⟨_, _, _, k⟩
+    · omega
+    · obtain ⟨hv0, hq⟩ := hstg b.v k
+      unfold AgreementAbs.RCertStaged
+      show match absVal b.v with | some y => _ | none => _
+      rw [absVal_some hv0]; exact hq
+    · omega
+    · rcases k with ⟨k, _⟩ | ⟨k, _⟩ | ⟨k, _⟩ <;> omega
+  · -- next-type
+    rcases hk with ⟨k, _⟩ | ⟨k, _⟩ | ⟨_, k2, _⟩ | ⟨_, _, _, k⟩
+    · omega
+    · omega
+    · rcases hval.2.1 h3 (by omega) with h | ⟨ns, hc, hv⟩
+      · obtain ⟨hv0, hq⟩ := hcomm b.v h
+        exact nv_some rfl hv0 (Or.inl hq)
+      · exact cache_case ns hc hv
+    · rcases k with ⟨_, k⟩ | ⟨_, knz, vw, h1, hbt, hpr⟩ | ⟨k5, k0⟩
+      · obtain ⟨hv0, hq⟩ := hstg b.v k
+        exact nv_some rfl hv0 (Or.inl hq)
+      · refine nv_some rfl knz (Or.inr ?_)
+        rw [hpl vw.cached ⟨vw, h1, rfl⟩]
+        show (⟨vw.cached.bottom, absVal vw.cached.proposal⟩ : AgreementAbs.Cache) = _
+        rw [hbt, hpr, absVal_some knz]
+      · exact down_case k0 (hval.2.2 k5)
+
+/-- **cached_nextQ** (`RSee`, `REnterCause … viaNext`): in every reached state, what a period tracker has cached has a next
+quorum in every linked history. -/
+theorem cached_nextQ (P : Params) (base : Nat → Nat → Nat → Vote → Bool) (hg : GoodSpec base)
+    (σ₀ : State) (h0 : Fresh σ₀) (es : List Player.Event) (hr : RunOK P base σ₀ es) (hra : RunOKA P σ₀ es)
+    (Pabs : AgreementAbs.Params) (hT : 0 < Pabs.T) (h : List AgreementAbs.Ev) :
+    ∀ y ∈ snaps P σ₀ es, ∀ r q vw, viewAt y.1.root r q = some vw → HistLink P (goodIn base es) Pabs r h →
+      (vw.cached.proposal ≠ 0 → AgreementAbs.nextQ Pabs h q (some vw.cached.proposal)) ∧
+      (vw.cached.bottom = true → AgreementAbs.nextQ Pabs h q none) := by
+  intro y hy r q vw hv hl
+  have hj := view_justified P base hg σ₀ h0 es hr hra y hy r q vw hv
+  have lift : ∀ (s v : Nat), 3 ≤ s → Quorum P (goodIn base es) r q s v → AgreementAbs.nextQ Pabs h q (absVal v) := by
+    intro s v hs3 hq
+    have hQ := quorum_Q hl (by omega) hq
+    have hS : absStep s = .next (s - 3) := by unfold absStep; rw [if_neg (by omega), if_neg (by omega)]
+    rw [hS] at hQ
+    have hpos : 0 < AgreementAbs.wtl Pabs.w Pabs.nodes (AgreementAbs.inSupp h q (.next (s - 3)) (absVal v)) :=
+      Nat.lt_of_lt_of_le hT hQ
+    obtain ⟨a, _, ha⟩ := wtl_pos hpos
+    rcases inSupp_iff.mp ha with hvf | ⟨x, hx, _, _, _, hxp, hxs, _⟩
+    · exact nextQ_of_Q (v := ⟨a, q, .next (s - 3), absVal v⟩) hvf rfl rfl hQ
+    · exact nextQ_of_Q hx hxp hxs hQ
+  refine ⟨fun hp => ?_, fun hb => ?_⟩
+  · obtain ⟨s, hs3, hq⟩ := hj.2.2.1 hp
+    have := lift s _ hs3 hq
+    rw [absVal_some hp] at this
+    exact this
+  · obtain ⟨s, hs3, hq⟩ := hj.2.2.2 hb
+    exact lift s 0 hs3 hq
+
+/-- **commit_certQ** (`RCommit`). -/
+theorem commit_certQ (P : Params) (base : Nat → Nat → Nat → Vote → Bool) (hg : GoodSpec base)
+    (σ₀ σ : State) (h0 : Fresh σ₀) (es : List Player.Event) (ass : List (List Action)) (hr : RunOK P base σ₀ es)
+    (h : Player.run P σ₀ es = .ok (σ, ass)) (Pabs : AgreementAbs.Params) (hist : List AgreementAbs.Ev) :
+    ∀ as ∈ ass, ∀ pay c, Action.ensure pay c ∈ as → HistLink P (goodIn base es) Pabs c.round hist → c.proposal ≠ 0 →
+      AgreementAbs.RCommit Pabs hist c.period c.proposal := by
+  intro as has pay c hmem hl hv
+  obtain ⟨_, _, _, hq⟩ := commit_cert_delivered P base hg σ₀ σ h0 es ass hr h as has pay c hmem
+  have := quorum_Q hl (by decide) hq
+  rw [absVal_some hv] at this
+  exact this
+
+/-! #### the executable projection to a complete abstract history of one round -/
+
+/-- one handled event: state before, event, state after, actions -/
+structure Rec where
+  pre : State
+  ev : Player.Event
+  post : State
+  acts : List Action
+
+def recs (P : Params) : State → List Player.Event → List Rec
+  | _, [] => []
+  | σ, e :: rest =>
+    match Player.handle P σ e with
+    | .error _ => []
+    | .ok (σ', as) => ⟨σ, e, σ', as⟩ :: recs P σ' rest
+
+def cachedOf (root : Root) (r q : Nat) : NextStatus := ((viewAt root r q).map (·.cached)).getD {}
+
+/-- the verified votes of round `r` the event delivers (votes of the node itself are its own attests) -/
+def delivOf (n r : Nat) : Player.Event → List AgreementAbs.Ev
+  | .vote verified bad r' p s x =>
+    if verified = true ∧ bad ≠ 1 ∧ bad ≠ 2 ∧ bad ≠ 3 ∧ r' = r ∧ x.sender ≠ n then
+      [.vote ⟨x.sender, p, absStep s, absVal x.value⟩] else []
+  | .bundle verified bad r' p s value votes eqs =>
+    if verified = true ∧ bad ≠ 1 ∧ bad ≠ 2 ∧ bad ≠ 3 ∧ r' = r then
+      ((bundleVotes value votes eqs).filter (fun x => x.sender != n)).map
+        (fun x => .vote ⟨x.sender, p, absStep s, absVal x.value⟩) else []
+  | _ => []
+
+/-- a `see` for every change of a next-threshold cache of round `r` -/
+def seeOf (n r : Nat) (pre post : Root) : List AgreementAbs.Ev :=
+  match aget post.rounds r with
+  | none => []
+  | some rr => rr.periods.flatMap (fun kv =>
+      let old := cachedOf pre r kv.1
+      let new := cachedOf post r kv.1
+      (if !old.bottom && new.bottom then [AgreementAbs.Ev.see n kv.1 none] else []) ++
+      (if new.proposal != old.proposal && new.proposal != 0 then [AgreementAbs.Ev.see n kv.1 (some new.proposal)] else []))
+
+/-- the cause of entering period `p`: the staged value's threshold, else the cached next threshold of `p − 1` -/
+def causeOf (root : Root) (r p : Nat) : AgreementAbs.Cause :=
+  let nextCause : AgreementAbs.Cause :=
+    let c := cachedOf root r (p - 1)
+    if c.bottom then .viaNext none else .viaNext (absVal c.proposal)
+  match (aget root.rounds r).bind (fun rr => aget rr.periods p) with
+  | some pr => if pr.ptContract.sawSoft then .viaSoft pr.ptracker.staging
+               else if pr.ptContract.sawCert then .viaCert pr.ptracker.staging else nextCause
+  | none => nextCause
+
+def enterOf (n r : Nat) (pre post : State) : List AgreementAbs.Ev :=
+  let old := if pre.pl.round = r then pre.pl.period else 0
+  if post.pl.round = r ∧ post.pl.period ≠ old then [.enter n post.pl.period (causeOf post.root r post.pl.period)] else []
+
+def commitOf (n r : Nat) : Action → List AgreementAbs.Ev
+  | .ensure _ c => if c.round = r then [.commit n c.period c.proposal] else []
+  | _ => []
+
+/-- per handled event: delivered votes, `see`, `enter`, own votes, `commit` (oldest first) -/
+def evsOf (n r : Nat) (x : Rec) : List AgreementAbs.Ev :=
+  delivOf n r x.ev ++ seeOf n r x.pre.root x.post.root ++ enterOf n r x.pre x.post ++
+  ((atts x.acts).filter (fun b => b.r == r)).map (fun b => .vote (absVote n b)) ++ x.acts.flatMap (commitOf n r)
+
+/-- the abstract history (newest first) of round `r` as seen by node `n` -/
+def projFull (P : Params) (n r : Nat) (σ₀ : State) (es : List Player.Event) : List AgreementAbs.Ev :=
+  ((recs P σ₀ es).flatMap (evsOf n r)).reverse
+
+theorem recs_events (P : Params) : ∀ (es : List Player.Event) (σ σ' : State) (ass : List (List Action)),
+    Player.run P σ es = .ok (σ', ass) → (recs P σ es).map (·.ev) = es := by
+  intro es
+  induction es with
+  | nil => intro _ _ _ _; rfl
+  | cons e rest ih =>
+    intro σ σ' ass h
+    simp only [Player.run] at h
+    split at h
+    · cases h
+    rename_i σ₁ as₁ hh
+    split at h
+    · cases h
+    rename_i σ₂ ass₂ hr
+    simp only [recs, hh, List.map_cons]
+    rw [ih σ₁ σ₂ ass₂ hr]
+
+/-- **histLink_projFull** (the "delivered votes are in the history" hypothesis holds for the constructed projection): for
+a run without panic, `projFull` contains every vote of round `r` delivered as verified by another sender; so it is linked,
+given that the abstract node set, weights and threshold fit the delivered votes, and that no vote delivered to the node
+carries the node's own name (its own votes enter the history as attests). -/
+theorem histLink_projFull (P : Params) (base : Nat → Nat → Nat → Vote → Bool) (σ₀ σ : State) (es : List Player.Event)
+    (ass : List (List Action)) (hrun : Player.run P σ₀ es = .ok (σ, ass)) (Pabs : AgreementAbs.Params) (n r : Nat)
+    (hthr : ∀ s, s ≠ 0 → Pabs.T ≤ stepT P s)
+    (hnodes : ∀ p s a, goodIn base es r p s a = true → a.sender ∈ Pabs.nodes ∧ Pabs.w a.sender = a.weight ∧ a.sender ≠ n) :
+    HistLink P (goodIn base es) Pabs r (projFull P n r σ₀ es) := by
+  refine ⟨hthr, fun p s a hga => ?_⟩
+  obtain ⟨h1, h2, h3⟩ := hnodes p s a hga
+  refine ⟨h1, h2, ?_⟩
+  simp only [goodIn, Bool.and_eq_true] at hga
+  obtain ⟨e, he, hd⟩ := List.any_eq_true.mp hga.2
+  have hev := recs_events P es σ₀ σ ass hrun
+  have : e ∈ (recs P σ₀ es).map (·.ev) := by rw [hev]; exact he
+  obtain ⟨x, hx, hxe⟩ := List.mem_map.mp this
+  show (⟨a.sender, p, absStep s, absVal a.value⟩ : AgreementAbs.Vote) ∈ AgreementAbs.votes _
+  rw [mem_votes_iff]
+  unfold projFull
+  rw [List.mem_reverse, List.mem_flatMap]
+  refine ⟨x, hx, ?_⟩
+  unfold evsOf
+  simp only [List.mem_append]
+  refine Or.inl (Or.inl (Or.inl (Or.inl ?_)))
+  rw [hxe]
+  cases e with
+  | vote verified bad r' p' s' x' =>
+    simp only [isDelivery, Bool.and_eq_true, bne_iff_ne, ne_eq, beq_iff_eq, decide_eq_true_eq] at hd
+    obtain ⟨⟨⟨⟨⟨⟨⟨d1, d2⟩, d3⟩, d4⟩, d5⟩, d6⟩, d7⟩, d8⟩ := hd
+    subst d5; subst d6; subst d7; subst d8
+    simp only [delivOf]
+    rw [if_pos ⟨d1, d2, d3, d4, trivial, h3⟩]
+    exact List.mem_singleton.mpr rfl
+  | bundle verified bad r' p' s' value votes eqs =>
+    simp only [isDelivery, Bool.and_eq_true, bne_iff_ne, ne_eq, beq_iff_eq, List.any_eq_true, decide_eq_true_eq] at hd
+    obtain ⟨⟨⟨⟨⟨⟨⟨d1, d2⟩, d3⟩, d4⟩, d5⟩, d6⟩, d7⟩, x', hx', rfl⟩ := hd
+    subst d5; subst d6; subst d7
+    simp only [delivOf]
+    rw [if_pos ⟨d1, d2, d3, d4, trivial⟩]
+    exact List.mem_map.mpr ⟨x', List.mem_filter.mpr ⟨hx', by simpa using h3⟩, rfl⟩
+  | pvote verified bad v taskIndex tail => simp [isDelivery] at hd
+  | payload verified bad pp own => simp [isDelivery] at hd
+  | timeout entropy => simp [isDelivery] at hd
+  | fastTimeout entropy => simp [isDelivery] at hd
+  | roundInterruption rr => simp [isDelivery] at hd
+  | checkpoint r1 p1 s1 err => simp [isDelivery] at hd
+
+/-- senders 2 and 3 with their credential weights, the node itself (7); only the node itself is vouched for;
+one threshold 5 = min of the step thresholds of `exP` used here -/
+def exPabs : AgreementAbs.Params := ⟨[2, 3, 7], fun a => if a = 2 then 3 else if a = 3 then 4 else 1, fun a => a == 7, 5⟩
+
+open Props.C03 (exP exInit) in
+/-- the abstract acceptor accepts the complete projections of the example runs: the run of section "non-vacuity" (two periods,
+a `see` and an `enter … viaNext ⊥`), the former counterexample run, and C03's committing run (a `commit`) -/
+example : AgreementAbs.wfCheck true exPabs (projFull exP 7 5 exInit exEvents) = true ∧
+    AgreementAbs.wfCheck true exPabs (projFull exP 7 5 exInit dropEvents) = true ∧
+    AgreementAbs.wfCheck true exPabs (projFull exP 7 5 exInit Props.C03.exEvents) = true := by
+  refine ⟨by decide, by decide, by decide⟩
+
+open Props.C03 (exP exInit) in
+example : (projFull exP 7 5 exInit Props.C03.exEvents).reverse =
+    [.vote ⟨2, 0, .cert, some 51⟩, .vote ⟨3, 0, .cert, some 51⟩, .commit 7 0 51] := by decide
+
+end AbsRules
 
 end Props.C01Player
